@@ -21,4 +21,7 @@ def tables : Tables :=
     authOnlyClient := [51, 52, 53, 60],
     gssMic := [5, 50, 61, 66] }
 
+/-- Transport.run, loop body: the `_expected_packet` test precedes every table dispatch and `_ensure_authed` -/
+def expectedCheckBeforeDispatch : Bool := true
+
 end PV.Generated.C12
